@@ -73,6 +73,8 @@ def labelled_fn(ranks, kind, mode, **kw):
         dv = {f"v{j}": ((), o) for j, o in enumerate(outs)}
     if mode == "dataset":
         return xr.Dataset(dv, coords={"t": T_COORDS} if kind >= 20 else None)
+    if mode == "dataset-nolabel":
+        return xr.Dataset(dv)            # the internal dimension is labelled by a constant of the run instead
     return {k: v for k, v in dv.items()}   # dict of (dims, data)
 
 
@@ -146,6 +148,13 @@ def one_case(c, rng, tmp):
         t_source = rng.choice(["var_coords", "constant", "none"])
         if t_source == "constant":
             constants["t"] = list(T_COORDS)
+    if arrays and mode != "plain" and rng.random() < 0.5:
+        # labelled results whose internal dimension carries no coordinate of its own: a constant naming that
+        # dimension supplies it (coordinate, not attribute), exactly as with declared var_dims
+        t_source = "constant"
+        constants["t"] = list(T_COORDS)
+        if mode == "dataset":
+            mode = "dataset-nolabel"
     var_coords = {"t": list(T_COORDS)} if t_source == "var_coords" else None
     shuffle = rng.choice([False, False, True, rng.randint(2, 99)])
     api = rng.choice(["function", "function", "Runner", "label"])
